@@ -729,9 +729,10 @@ func genL3(r *vlib.R, tier string, emit func(string), n *int) {
 	if tier == "thorough" {
 		emit("fail l3shed global")
 		emit("fail l3shed zone")
-		*n -= 2
+		emit("fail l3shed nested")
+		*n -= 3
 	} else {
-		emit("fail l3shed " + vlib.Pick(r, []string{"global", "zone"}))
+		emit("fail l3shed " + vlib.Pick(r, []string{"global", "zone", "nested", "nested"}))
 		*n--
 	}
 	emit("fail l3zone s,r,s,s 0") // control: every server fails, the zone failure may be recorded
@@ -753,7 +754,17 @@ func genStateless(r *vlib.R, emit func(string), n *int, k int) {
 	marks := []string{"none", "work", "attempt", "probe", "shed", "w:shed", "maxrec", "canceled", "deadline", "other", "w:work", "w:attempt", "w:canceled", "w:deadline", "w:other", "else:work", "else:deadline"}
 	causes := []string{"none", "work", "attempt", "probe", "shed", "maxrec", "canceled", "deadline", "other", "w:work", "w:attempt", "w:maxrec", "w:canceled", "w:deadline", "w:other"}
 	for i := 0; i < k; i++ {
-		switch r.Intn(6) {
+		switch r.Intn(7) {
+		case 6:
+			// name-server address sub-lookups of a glueless delegation: at most one hard
+			// and one soft request-local cause per op (the result is then order independent)
+			hard := vlib.Pick(r, []string{"work", "maxrec", "canceled", "deadline"})
+			soft := vlib.Pick(r, []string{"attempt", "shed"})
+			var outs []string
+			for j := 1 + r.Intn(4); j > 0; j-- {
+				outs = append(outs, vlib.Pick(r, []string{"f", "f", "e", "a", "l:" + soft, "l:" + soft, "x:" + soft, "l:" + hard, "x:w:" + hard, "x:other", "l:other"}))
+			}
+			emit("fail nss " + strings.Join(outs, ","))
 		case 0:
 			emit(fmt.Sprintf("fail cacheable %s %s", vlib.Pick(r, flags), vlib.Pick(r, marks)))
 		case 1:
